@@ -277,6 +277,12 @@ def _copy_layer_to_x_sparse(
                 if 0 in src_dataset.shape:
                     # an empty dataset cannot be chunked
                     chunks = None
+                elif chunks is not None:
+                    # a resizable dataset may have chunks larger
+                    # than its current shape
+                    chunks = tuple(
+                        min(c, n)
+                        for c, n in zip(chunks, src_dataset.shape))
                 dst_grp.create_dataset(
                     el,
                     shape=src_dataset.shape,
